@@ -66,6 +66,8 @@ def main():
                 feats = '--features sync'
             if '--features json' in notes or 'features json' in notes or 'feature json' in notes or '`json` feature' in notes:
                 feats = '--features json'
+            if 'features ignore_case --test seed_demo' in notes:
+                feats = '--features ignore_case'
             suite_ok, demo_fail, demo_pass, log = confirm(wt, sd, feats)
             if feats and not (demo_fail and demo_pass):
                 # some C15 demonstrations fail in the default build instead
